@@ -10,7 +10,7 @@ for d in seeded/_sound/*/; do
   prop=$(python3 -c "import json,sys;print(json.load(open(sys.argv[1]))['property'])" "$d/meta.json")
   wt=$(mktemp -d /tmp/sound-XXXXXX); rmdir "$wt"
   git -C /repo worktree add -q --detach "$wt" HEAD
-  if ! (cd "$wt" && git apply "$OLDPWD/$d/patch.diff"); then echo "$name: patch does not apply"; rc=1
+  if ! (cd "$wt" && (git apply "$OLDPWD/$d/patch.diff" 2>/dev/null || git apply --3way "$OLDPWD/$d/patch.diff")); then echo "$name: patch does not apply"; rc=1
   elif ! (cd "$wt" && go test -vet=off -count=1 ./... >/dev/null 2>&1); then echo "$name: repository suite fails"; rc=1
   else
     for tier in ${TIERS:-quick}; do
